@@ -152,6 +152,50 @@ theorem size_files_beyond_backups_untouched (len : α → Nat) (K j : Nat) (hj :
     bget (run len ⟨{}, fs0⟩ ops).fs.bak j = bget fs0.bak j :=
   untouched_run len K j hj ops ⟨{}, fs0⟩ (by intro h; simp at h) ha
 
+/-! ### The literal clause under arbitrary reconfiguration is false (recorded finding)
+
+The property text quantifies over "any sequence of … backup counts and handler
+restarts".  Read literally — the view taken with the `backup_count` *in force at the
+end*, `backup_count` changing freely at restarts — the statement is `SizeViewLiteral`
+below, and it is **false** for the real code (known_findings.jsonl, signature
+`C17-stale-backups-after-backup-count-shrank`): when the count shrinks at one restart and
+grows again at a later one, the backups numbered above the smaller count were not
+shifted in between and are stale. -/
+
+/-- the literal full statement: for every directory, every history with arbitrary
+`max_bytes` / `backup_count` at every init, the `max(backup_count,1)` newest backups (count
+of the last init) oldest → newest followed by the live file are a suffix of what those
+files held at the start followed by everything written -/
+def SizeViewLiteral : Prop :=
+  ∀ (α : Type) (len : α → Nat) (fs0 : FS α) (ops : List (Op α)),
+    let fin := run len ⟨{}, fs0⟩ ops
+    view (eff fin.h.backupCount) fin.fs <:+ view (eff fin.h.backupCount) fs0 ++ written false ops
+
+/-- the recorded history: limit 5, every line 6 bytes (so every write rotates);
+3 backups, then 0 (keeps `path.1` only), then 3 again.  Ends with
+`path.3 = [2]`, `path.2 = [4]`, `path.1 = [5]`: line 3 is missing in between. -/
+def literalWitness : List (Op Nat) :=
+  [.init 5 3, .write 1, .write 2, .write 3, .close, .init 5 0, .write 4, .close, .init 5 3, .write 5]
+
+/-- **the literal clause fails** (negation witness, replayed on the implementation by the
+check's `literal` family: `rinit 5 3; w 6 ×3; close; rinit 5 0; w 6; close; rinit 5 3; w 6`) -/
+theorem size_view_literal_fails : ¬ SizeViewLiteral := by
+  intro h
+  have := h Nat (fun _ => 6) {} literalWitness
+  revert this
+  decide
+
+/-- **what is proved of the literal clause** (= `size_view_is_suffix`).  Missing for the full
+statement `SizeViewLiteral`: the view may only reach down to `k` backups with
+`k ≤ max(backup_count,1)` at *every* init of the history (`Keeps k`), i.e. the smallest count
+configured — for a history with one configuration (or a count that never drops below the
+one in force at the end) that is the literal view; after the count has shrunk and grown
+again the files `path.j`, `k < j`, are stale and not covered (`size_view_literal_fails`). -/
+theorem size_view_is_suffix_partial (len : α → Nat) (k : Nat) (fs0 : FS α) (ops : List (Op α))
+    (hk : Keeps k ops) :
+    view k (run len ⟨{}, fs0⟩ ops).fs <:+ view k fs0 ++ written false ops :=
+  size_view_is_suffix len k fs0 ops hk
+
 /-- Non-vacuity (size): a pre-existing directory with a gap, limit 10, two backups, a
 restart with another limit and another backup count, four rotations; hypotheses hold, something was discarded,
 and the view is the expected suffix. -/
